@@ -104,6 +104,7 @@ def attribute(chk, results, pid, exe, scen, flavour, workdir, max_confirm=6, als
               keep_events=False):
     """Turn TLC's contract-failure reports for property `pid` into violations / known findings."""
     confirmed = 0
+    unconfirmed = []
     seen = set()
     for rep, events, path in results:
         for f in rep["fails"]:
@@ -144,9 +145,17 @@ def attribute(chk, results, pid, exe, scen, flavour, workdir, max_confirm=6, als
                     chk.cov["_hangs_confirmed"] = chk.cov.get("_hangs_confirmed", 0) + 1
             elif confirmed < max_confirm:
                 if not confirm(exe, events, scen, f["p"], f["sig"], workdir, module=module):
-                    raise vlib.FrameworkError("rejection did not repeat when run %s was re-recorded alone: %s" % (rep["run"], text))
+                    # not reproducible when re-recorded alone (it may depend on uninitialised or stale memory): never reported on its
+                    # own; other rejected runs are tried, and if none of them repeats either the check ends as a machinery failure
+                    unconfirmed.append("run %s: %s" % (rep["run"], text))
+                    chk.cov["unconfirmed_rejections"] = chk.cov.get("unconfirmed_rejections", 0) + 1
+                    if len(unconfirmed) >= 8 and confirmed == 0 and not chk.violations:
+                        raise vlib.FrameworkError("rejections did not repeat when re-recorded alone: %s" % unconfirmed[0])
+                    continue
                 confirmed += 1
             chk.violation(text, replay, f["sig"])
+    if unconfirmed and confirmed == 0 and not chk.violations:
+        raise vlib.FrameworkError("rejections did not repeat when re-recorded alone: %s" % unconfirmed[0])
 
 
 def confirm_events(events, pid, sig, workdir, module="TraceCircuit"):
